@@ -306,6 +306,40 @@ func applyCustomerRates(doc billable) {
 	}
 }
 
+// dropRegimeCountry removes from every tax combo a country that is the
+// document's own regime: the tax calculation does so too, but only after the
+// normalisers have run, and some of them (e.g. pt-saft) would take the combo
+// for a foreign one and decide differently the next time around.
+func dropRegimeCountry(doc billable) {
+	country := doc.RegimeDef().GetCountry()
+	if country == "" {
+		return
+	}
+	for _, l := range doc.getLines() {
+		if l != nil {
+			dropCountryFromTaxes(l.Taxes, country)
+		}
+	}
+	for _, d := range doc.getDiscounts() {
+		if d != nil {
+			dropCountryFromTaxes(d.Taxes, country)
+		}
+	}
+	for _, c := range doc.getCharges() {
+		if c != nil {
+			dropCountryFromTaxes(c.Taxes, country)
+		}
+	}
+}
+
+func dropCountryFromTaxes(ts tax.Set, country l10n.TaxCountryCode) {
+	for _, t := range ts {
+		if t != nil && t.Country == country {
+			t.Country = ""
+		}
+	}
+}
+
 func addCountryToTaxes(ts tax.Set, country l10n.TaxCountryCode) {
 	for _, t := range ts {
 		if t != nil {
